@@ -185,6 +185,8 @@ def step (sess : Session) (line : String) : Session × String :=
      | some text => (sess, encAnalysis (analyzeText sess.fuel text))
      | none => (sess, "bad-utf8"))
   | ["analyze"] => (sess, encAnalysis (analyzeText sess.fuel []))
+  -- the client's handshake (what it offers in `initialize`) does not change what the server must answer
+  | ["lsphello", _] => (sess, "ok")
   | ["lsp", h] =>
     (match unhex h with
      | some text => (sess, encLsp (lspAnalyze sess.fuel text))
